@@ -18,6 +18,7 @@ func init() {
 			"(R4) grants written by approve/revoke/increase/decrease use the signer as granter, never a calldata value; (R5) check and update use the same (grantee, granter) pair.",
 		Assumptions: []string{"authz Accept() arithmetic of cosmos-sdk/ibc-go reduces a limited grant by exactly the amount", "evm.Origin is the recovered signer (C03)"},
 		Declined:    []string{"exact allowance arithmetic ('reduced by exactly the amount, never overspent') — SDK StakeAuthorization/TransferAuthorization.Accept"},
+		Thorough:    wholeProgramEffectFilter,
 	})
 }
 
